@@ -121,6 +121,9 @@ def gen_cases(tier, seed):
                 cases.append(dict(shape=d))
     # two objects: a rational shape and the copy a transform returns, views of the source read before those of the copy
     extra = [dict(c, as_copy=True) for c in cases if c['shape']['rational'] and c['shape']['dim'] == 3][::(7 if q else 3)]
+    # ... and the same object after Curve.reverse() / Surface.transpose() (methods; the views were read before)
+    extra += [dict(c, after_method='reverse' if c['shape']['pdim'] == 1 else 'transpose') for c in cases
+              if c['shape']['pdim'] <= 2 and c['shape'].get('normalize_kv', True) and not c.get('unclamped')][::(9 if q else 4)]
     return cases + extra
 
 
@@ -238,9 +241,19 @@ def run_case(case, ctx):
         src = obj
         obj = operations.translate(src, [2.0, -1.0, 0.5][:dim])
         _ = (src.ctrlpts, src.bbox, src.weights, src.evalpts)
+    if case.get('after_method'):
+        # the judged object went through a structural method (Curve.reverse / Surface.transpose) after its views were read
+        _ = (obj.ctrlpts, obj.bbox, obj.evalpts)
+        if desc['rational']:
+            _ = obj.weights
+        getattr(obj, case['after_method'])()
     model = R.def_from_obj(obj)
     degs = model['degrees']
     U_pts = _unweighted(model)
+    # the control points the object REPORTS are the ones the hull statements are about
+    rep = [list(p) for p in obj.ctrlpts]
+    ctx.close('C18.reported_net.is_the_net', rep, U_pts, 1e-12, max(1.0, max(abs(float(c)) for p in U_pts for c in p)),
+              dict(case, parts=['grid'], sample_sizes=[]), dict(pdim=pd, rational=desc['rational'], after_method=case.get('after_method')))
     maxP = max(1.0, max(abs(float(c)) for p in U_pts for c in p))
     eps = EPS * maxP
     clamped = all(R.multiplicity(U, U[0]) >= p + 1 and R.multiplicity(U, U[-1]) >= p + 1
